@@ -526,8 +526,9 @@ pub fn check_gfa<K: Kmer, D: Debug>(text: &[u8], g: &DebruijnGraph<K, D>, tags: 
     } else {
         return Err(Violation::new("gfa-malformed", site, "output does not end with a newline".into()));
     }
-    if lines.first() != Some(&"H\tVN:Z:debruijn-rs") {
-        return Err(Violation::new("gfa-malformed", site, format!("first line is {:?}", lines.first())));
+    // the property does not fix the header's content, only that the file is GFA
+    if !lines.first().map(|l| *l == "H" || l.starts_with("H\t")).unwrap_or(false) {
+        return Err(Violation::new("gfa-malformed", site, format!("first line is {:?}, not a GFA header", lines.first())));
     }
     let n = g.len();
     let k = K::k();
@@ -557,7 +558,7 @@ pub fn check_gfa<K: Kmer, D: Debug>(text: &[u8], g: &DebruijnGraph<K, D>, tags: 
                 }
             }
             "L" => {
-                if f.len() != 6 {
+                if f.len() < 6 {
                     return Err(Violation::new("gfa-malformed", site, format!("bad L line {:?}", l)));
                 }
                 let a: usize = f[1].parse().map_err(|_| Violation::new("gfa-malformed", site, format!("bad L line {:?}", l)))?;
@@ -661,11 +662,26 @@ pub fn check_json<K: Kmer>(text: &[u8], g: &DebruijnGraph<K, u16>, rest: &Option
     if nodes.len() != g.len() {
         return Err(Violation::new("json-nodes", site, format!("{} node entries for {} nodes", nodes.len(), g.len())));
     }
-    for (i, nd) in nodes.iter().enumerate() {
-        let id_ok = nd.get("id").and_then(|x| x.as_str()) == Some(i.to_string().as_str());
-        let len_ok = nd.get("L").and_then(|x| x.as_u64()) == Some(g.get_node(i).len() as u64);
-        let d_ok = nd.get("D") == Some(&json!(*g.get_node(i).data()));
-        if !id_ok || !len_ok || !d_ok {
+    // ids may be strings or numbers; fields beyond the id are checked when present
+    let as_id = |x: Option<&Value>| -> Option<String> {
+        match x {
+            Some(Value::String(s)) => Some(s.clone()),
+            Some(Value::Number(n)) => Some(n.to_string()),
+            _ => None,
+        }
+    };
+    let mut ids: Vec<String> = nodes.iter().filter_map(|nd| as_id(nd.get("id"))).collect();
+    ids.sort();
+    let mut want_ids: Vec<String> = (0..g.len()).map(|i| i.to_string()).collect();
+    want_ids.sort();
+    if ids != want_ids {
+        return Err(Violation::new("json-nodes", site, format!("node ids {:?} are not exactly 0..{}", ids.iter().take(8).collect::<Vec<_>>(), g.len())));
+    }
+    for nd in nodes.iter() {
+        let i: usize = as_id(nd.get("id")).unwrap().parse().unwrap();
+        let len_ok = nd.get("L").map(|x| x.as_u64() == Some(g.get_node(i).len() as u64)).unwrap_or(true);
+        let d_ok = nd.get("D").map(|x| *x == json!(*g.get_node(i).data())).unwrap_or(true);
+        if !len_ok || !d_ok {
             return Err(Violation::new("json-nodes", site, format!("node entry {} is {}", i, nd)));
         }
     }
@@ -677,7 +693,7 @@ pub fn check_json<K: Kmer>(text: &[u8], g: &DebruijnGraph<K, u16>, rest: &Option
     }
     let mut got: Vec<(String, String, String)> = Vec::new();
     for l in links {
-        let s = |k: &str| l.get(k).and_then(|x| x.as_str()).map(|s| s.to_string());
+        let s = |k: &str| as_id(l.get(k));
         match (s("source"), s("target"), s("D")) {
             (Some(a), Some(b), Some(c)) => got.push((a, b, c)),
             _ => return Err(Violation::new("json-shape", site, format!("bad link entry {}", l))),
@@ -937,10 +953,12 @@ impl Harness for ExportCheck {
             Tier::Thorough => 10_000_000,
         }
     }
-    fn gen(&self, rng: &mut Rng, _tier: Tier) -> ExportCase {
+    fn gen(&self, rng: &mut Rng, tier: Tier) -> ExportCase {
         // small K so that hairpins, circles and palindromes are common
         let kt: &[&str] = if rng.chance(2, 3) { &["Kmer4", "Kmer6", "Kmer8"] } else { &KTYPES };
-        let mut graph = gen_graph_spec(rng, kt, 8, 140);
+        // larger outputs (beyond one BufWriter buffer) now and then
+        let long = rng.chance(1, if tier == Tier::Thorough { 40 } else { 400 });
+        let mut graph = if long { gen_graph_spec(rng, kt, 30, 1200) } else { gen_graph_spec(rng, kt, 8, 140) };
         if rng.chance(1, 20) {
             graph.reads.clear(); // empty graph
         }
@@ -955,7 +973,7 @@ impl Harness for ExportCheck {
             37 => ExportOp::ToGfaFile(Device::DevFull),
             38 => ExportOp::ToGfaTagsFile(Device::DevFull),
             _ => {
-                let lim = rng.range(0, 400) as u64;
+                let lim = if rng.chance(1, 3) { rng.range(4000, 20_000) } else { rng.range(0, 400) } as u64;
                 if rng.chance(1, 2) {
                     ExportOp::ToGfaFile(Device::Rlimit(lim))
                 } else {
